@@ -172,6 +172,7 @@ Definition run_cmd (m : ovf_mode) (cmd : tok) (args : list tok) : list byte :=
   else if tok_is cmd "IDPAIR" then run_idpair args
   else if tok_is cmd "IDREF" then run_idref args
   else if tok_is cmd "SRREF" then run_srref args
+  else if tok_is cmd "SRREFE" then run_srrefe args
   else if tok_is cmd "FAULT" then run_fault args
   else if tok_is cmd "FFI" then run_ffi m args
   else if tok_is cmd "FFIP" then run_ffi_pinned m args
